@@ -75,7 +75,7 @@ def case_value_roundtrip(ctx, setting):
 
 
 # --------------------------------------------------------------------------------------------- (b)
-def build_np24(ctx, shank_of, window, K, ns_min=577, post_check=False, compress=False, delete_original=False, ns_name="ns", fs_txt="30000"):
+def build_np24(ctx, shank_of, window, K, ns_min=577, post_check=False, compress=False, delete_original=False, ns_name="ns", fs_txt="30000", rng="0.5", maxint=8192):
     """original NP2.4 recording with symbolic length on a fresh fake fs; returns (converter, fs, ns, nc)"""
     import neuropixel
     n = len(shank_of)
@@ -84,7 +84,7 @@ def build_np24(ctx, shank_of, window, K, ns_min=577, post_check=False, compress=
     ov = 576
     ctx.assume(ns <= window + (K - 1) * (window - ov))
     T = core._as_real(ns) / Fraction(float(fs_txt))
-    txt = np2env.np24_meta_text(n, shank_of, sglx.S(T), extra=["fileSHA1=ABCDEF", f"fileSizeBytes={sglx.S(ns * nc * 2)}"], fs_txt=fs_txt)
+    txt = np2env.np24_meta_text(n, shank_of, sglx.S(T), extra=["fileSHA1=ABCDEF", f"fileSizeBytes={sglx.S(ns * nc * 2)}"], fs_txt=fs_txt, rng=rng, maxint=maxint)
     F = fakefs.install(fakefs.FakeFS())
     F.add("/s/probe00/x.imec0.ap.meta", True, len(txt), [{"pos": 0, "text": txt}])
     F.add("/s/probe00/x.imec0.ap.bin", True, ns * nc * 2, np2env.raw_array(ns, nc))
@@ -231,9 +231,77 @@ def case_reconstruct(ctx, mapname, window, K, fs_txt="30000"):
     ctx.oblige("only_provenance_flag_added", extra <= {"original_meta"}, detail={"extra": sorted(extra)})
 
 
+def case_reconstruct_words(ctx, setting):
+    """whatever int16 words the shank files hold, the reassembled file holds exactly these words at the original channel
+    positions - for every word value and every volts-per-bit setting (bit-vector words, IEEE semantics if floats get involved)"""
+    import neuropixel
+    rng, maxint = SETTINGS[setting]
+    shank_of = MAPS["contig"]
+    conv, F, ns, nc = build_np24(ctx, shank_of, 1200, 2, rng=rng, maxint=maxint)
+    conv.init_params(nwindow=1200, extra="")
+    ctx.call("process", conv.process)
+    F.files.pop("/s/probe00/x.imec0.ap.bin")
+    F.files.pop("/s/probe00/x.imec0.ap.meta")
+    words = {}
+    for s_ in sorted(set(shank_of)):
+        chns = shank_channels(shank_of, s_)
+        path = f"/s/probe00{chr(97 + s_)}/x.imec0.ap.bin"
+        f = F.get(path)
+        ws = [ctx.bv(f"word_shank{s_}_col{j}", 16) for j in range(len(chns))]
+        words[s_] = ws
+
+        def fn(r, c, ws=ws):
+            if not isinstance(c, core.Sym):
+                return ws[int(c)]
+            out = ws[-1]
+            for j in range(len(ws) - 2, -1, -1):
+                out = core.ite(core.eq(c, j), ws[j], out)
+            return out
+        arr = LArr((ns, len(chns)), fn, aid=larr.const_aid(f"words_shank{s_}"), tag=np.dtype(np.int16))
+        f.content = [{"pos": 0, "array": arr, "itemsize": 2, "nbytes": ns * len(chns) * 2}]
+    rec = neuropixel.NP2Reconstructor(FakePath("/s"), "probe00", compress=False)
+    status = ctx.call("reconstruct", rec.process)
+    ctx.oblige("reconstruct_status_one", status == 1, detail={"status": status})
+    view = check_split_file(ctx, F, "/s/probe00/x.imec0.ap.bin", ns, list(range(nc)), "reconstructed")
+    if view is None:
+        return
+    p = ctx.int("p", 0)
+    ctx.assume(p < ns)
+    for s_ in sorted(set(shank_of)):
+        chns = shank_channels(shank_of, s_)
+        for j, c in enumerate(chns):
+            if c == nc - 1 and s_ != sorted(set(shank_of))[0]:
+                continue            # the sync column is taken from the first shank file
+            got = view.fn(p, c)
+            w = words[s_][j]
+            if isinstance(got, SFP):
+                got = arrays.cast_scalar(got, np.int16)          # the value went through floats: C cast back to int16
+            if isinstance(got, SBV):
+                if "fp." not in got.t.sexpr():
+                    ctx.oblige("reconstructed_word_is_the_shank_files_word", core.eq(got, w), detail={"setting": setting, "shank": s_, "col": j, "channel": c})
+                else:
+                    # the word went through IEEE arithmetic: decided by cvc5 (logic ALL: bit-vectors + IEEE + the integer path condition
+                    # on ns and the row p) for all 65536 values
+                    res, model, dt = fp.cvc5_decide(list(ctx.solver.assertions()) + [z3.Not(got.t == w.t)], 900, logic="ALL")
+                    ctx.ex.stats.solver_s += dt
+                    if res == "unsat":
+                        ctx.oblige("reconstructed_word_is_the_shank_files_word", True)
+                    elif res == "sat":
+                        ctx.solver.push()
+                        ctx.solver.add(w.t == z3.BitVecVal(model[f"word_shank{s_}_col{j}"], 16))
+                        ctx.oblige("reconstructed_word_is_the_shank_files_word", False, detail={"setting": setting, "shank": s_, "col": j, "channel": c})
+                        ctx.solver.pop()
+                    else:
+                        raise core.SolverUnknown(f"cvc5 {res} {model}")
+            else:
+                ctx.oblige("reconstructed_word_is_the_shank_files_word", False, detail={"type": type(got).__name__, "shank": s_, "col": j})
+
+
 def cases(tier):
     b = bounds(tier)
     cs = []
+    for st in (["0.62_2048"] if tier == "quick" else list(SETTINGS)):
+        cs.append(Case(f"reconstruct_words_{st}", "case_reconstruct_words", {"setting": st}, timeout_s=2400))
     for st in b["settings"]:
         cs.append(Case(f"value_roundtrip_{st}", "case_value_roundtrip", {"setting": st}, timeout_s=2400))
     for mp in b["maps"]:
@@ -352,6 +420,40 @@ except Exception as e:
     reproduced(f'_get_chans raised {{e!r}} on {{txt!r}}')
 print(cs, txt, back)
 if list(back) != list(cs): reproduced(f'channel list {{cs.tolist()}} -> {{txt!r}} -> {{back.tolist()}}')
+not_reproduced()
+"""
+    if case.startswith("reconstruct_words"):
+        rng, maxint = SETTINGS[params["setting"]]
+        ws = {k: v for k, v in m.items() if k.startswith("word_shank")}
+        return common + f"""
+shank_of = {MAPS['contig']}; ns = 1300; ws = {ws}
+d, data = make(shank_of, ns, rng={rng!r}, maxint={maxint})
+conv = neuropixel.NP2Converter(d / 'x.imec0.ap.bin', post_check=False, compress=False)
+conv.init_params(nwindow=1200, extra='')
+conv.process()
+(d / 'x.imec0.ap.bin').unlink(); (d / 'x.imec0.ap.meta').unlink()
+# the shank files now get the witness words (all 65536 values appear in column 0 of shank 0 as well)
+expect = np.zeros((ns, len(shank_of) + 1), dtype=np.int16)
+for s in sorted(set(shank_of)):
+    chns = [i for i, x in enumerate(shank_of) if x == s] + [len(shank_of)]
+    f = d.parent / f'probe00{{chr(97 + s)}}' / 'x.imec0.ap.bin'
+    a = np.fromfile(f, dtype=np.int16).reshape(ns, len(chns))
+    for j in range(len(chns)):
+        w = ws.get(f'word_shank{{s}}_col{{j}}')
+        if w is not None: a[:, j] = np.array([w], dtype=np.uint16).astype(np.int16)[0]
+    if s == 0: a[:, 0] = (np.arange(ns) * 50 - 32768).clip(-32768, 32767).astype(np.int16)
+    a.tofile(f)
+    if s == sorted(set(shank_of))[0]: expect[:, chns] = a
+    else: expect[:, chns[:-1]] = a[:, :-1]
+rec = neuropixel.NP2Reconstructor(d.parent, 'probe00', compress=False)
+try:
+    st = rec.process()
+except Exception as e:
+    reproduced(f'reconstruction raised {{type(e).__name__}}: {{e}}')
+out = np.fromfile(d / 'x.imec0.ap.bin', dtype=np.int16).reshape(ns, -1)
+diff = np.argwhere(out != expect)
+print(len(diff), diff[:5])
+if out.shape != expect.shape or len(diff): reproduced(f'the reassembled file differs from the shank files in {{len(diff)}} words (range/maxint {rng}/{maxint}), e.g. {{[(int(r), int(c), int(expect[r, c]), int(out[r, c])) for r, c in diff[:4]]}}')
 not_reproduced()
 """
     if case.startswith("reconstruct"):
